@@ -347,7 +347,8 @@ fn parse_tok(t: &str) -> Tok {
             ["R", conn, method, uri, ver, peer, hdrs, xd, acts] => Tok::R(ReqTok {
                 conn: opt_nat(conn)?,
                 method: method.to_string(),
-                uri: uri.to_string(),
+                // authority-form targets are written `host~port` (`:` is the field separator)
+                uri: uri.replace('~', ":"),
                 ver: ver.to_string(),
                 peer: if *peer == "~" { None } else { opt_nat(peer)? },
                 raw: *peer == "~",
@@ -984,7 +985,18 @@ fn gen_uri(rng: &mut Rng) -> String {
 }
 
 fn gen_req(rng: &mut Rng, slots: u32) -> String {
-    let method = *rng.pick(&["GET", "GET", "POST", "PUT"]);
+    let mut method = *rng.pick(&["GET", "GET", "POST", "PUT"]);
+    // request targets that are not origin-form: asterisk-form and authority-form
+    let mut target = None;
+    if rng.chance(1, 8) {
+        if rng.chance(1, 2) {
+            method = "OPTIONS";
+            target = Some("*".to_owned());
+        } else {
+            method = "CONNECT";
+            target = Some(format!("{}~{}", rng.pick(&["h", "example.org"]), rng.pick(&["80", "8443"])));
+        }
+    }
     let ver = *rng.pick(&["11", "11", "10", "2"]);
     // `~`: built with actix_http's TestRequest, which never mentions the peer address
     let peer = match rng.below(6) {
@@ -1026,7 +1038,11 @@ fn gen_req(rng: &mut Rng, slots: u32) -> String {
         }
     }
     let j = |v: Vec<String>| if v.is_empty() { "-".to_owned() } else { v.join(",") };
-    format!("R:-:{}:{}:{}:{}:{}:{}:{}", method, gen_uri(rng), ver, peer, j(hdrs), j(xd), j(acts))
+    let uri = match target {
+        Some(t) => t,
+        None => gen_uri(rng),
+    };
+    format!("R:-:{}:{}:{}:{}:{}:{}:{}", method, uri, ver, peer, j(hdrs), j(xd), j(acts))
 }
 
 fn gen_history(rng: &mut Rng, n: usize, slots: u32) -> String {
@@ -1105,10 +1121,12 @@ fn gen_h1(rng: &mut Rng, n: usize, slots: u32) -> String {
                 let p: Vec<&str> = r.split(':').collect();
                 let acts: Vec<&str> = p[8].split(',').filter(|a| *a != "x" && *a != "-" && !a.starts_with('p')).collect();
                 let peer = if c % 2 == 1 { (2000 + c).to_string() } else { "-".to_owned() };
+                // CONNECT would switch the h1 dispatcher to upgrade handling: on the wire only `OPTIONS *`
+                let (m, u) = if p[2] == "CONNECT" { ("OPTIONS", "*") } else { (p[2], p[3]) };
                 format!(
                     "R:{c}:{}:{}:11:{peer}:{}:-:{}",
-                    p[2],
-                    p[3],
+                    m,
+                    u,
                     p[6],
                     if acts.is_empty() { "-".to_owned() } else { acts.join(",") }
                 )
